@@ -82,6 +82,9 @@ func (m *Markdown) PostProcess(blockType string, fn PostProcessor) *Markdown {
 // Load reads a markdown file from the content filesystem and parses it into a Document.
 // YAML front matter delimited by --- is extracted and available via FrontMatter().
 func (m *Markdown) Load(filename string) (*Document, error) {
+	if m.contentFS == nil {
+		return nil, fmt.Errorf("loading %s: no content filesystem configured", filename)
+	}
 	raw, err := fs.ReadFile(m.contentFS, filename)
 	if err != nil {
 		return nil, fmt.Errorf("loading %s: %w", filename, err)
